@@ -1,0 +1,72 @@
+#pragma once
+
+///
+/// \brief verification-only schedule points (compiled only with -DNANO_VERIF).
+///
+/// NB: without the guard `NANO_VERIF_POINT` expands to nothing.
+///
+#ifdef NANO_VERIF
+
+    #include <atomic>
+    #include <cstddef>
+    #include <cstdint>
+    #include <nano/arch.h>
+
+namespace nano::verif
+{
+enum point : int
+{
+    enqueue_begin = 0,  ///< queue_t::enqueue, before taking the lock
+    enqueue_pushed,     ///< queue_t::enqueue, task pushed (lock held)
+    enqueue_notified,   ///< queue_t::enqueue, after notify_one
+    map_begin,          ///< pool_t::map, before taking the lock
+    map_pushed,         ///< pool_t::map, one task pushed (lock held)
+    map_unlocked,       ///< pool_t::map, all tasks pushed, lock released, before notify_all
+    map_notified,       ///< pool_t::map, after notify_all, before blocking
+    map_end,            ///< pool_t::map, after blocking
+    worker_wait,        ///< worker, lock held, before waiting on the condition
+    worker_woke,        ///< worker, lock held, predicate satisfied
+    worker_popped,      ///< worker, lock held, task popped
+    worker_run,         ///< worker, lock released, before running the task
+    worker_ran,         ///< worker, after running the task
+    worker_stop,        ///< worker, lock held, stop seen
+    worker_exit,        ///< worker, leaving the loop
+    pool_stop_begin,    ///< ~pool_t, before taking the lock
+    pool_stop_set,      ///< ~pool_t, stop flag set (lock held)
+    pool_stop_notified, ///< ~pool_t, after notify_all
+    pool_join_begin,    ///< ~pool_t, before joining a worker
+    pool_join_end,      ///< ~pool_t, after joining a worker
+    block_begin,        ///< section_t::block, before waiting for a future
+    block_end,          ///< section_t::block, after waiting for a future
+    npoints
+};
+
+using callback_t = void (*)(int point, const void* object, std::size_t index);
+
+///
+/// \brief the installed callback (null by default: schedule points do nothing).
+///
+NANO_PUBLIC std::atomic<callback_t>& callback();
+
+///
+/// \brief state of the default seed used by `make_rng()` when no seed is given
+///     (zero by default: seeds are drawn from std::random_device).
+///
+NANO_PUBLIC std::atomic<uint64_t>& rng_state();
+
+inline void hit(const int point, const void* object, const std::size_t index)
+{
+    if (const auto op = callback().load(std::memory_order_acquire); op != nullptr)
+    {
+        op(point, object, index);
+    }
+}
+} // namespace nano::verif
+
+    #define NANO_VERIF_POINT(point, object, index) ::nano::verif::hit(::nano::verif::point, object, index)
+
+#else
+
+    #define NANO_VERIF_POINT(point, object, index)
+
+#endif
